@@ -9,6 +9,7 @@ import (
 	"math"
 	"sort"
 	"testing"
+	"time"
 
 	"github.com/paulmach/orb"
 	"pgregory.net/rapid"
@@ -17,7 +18,12 @@ import (
 	"verifharness/internal/stats"
 )
 
-func TestMain(m *testing.M) { stats.Main(m, "C08") }
+func TestMain(m *testing.M) {
+	// the deepest rung of the nesting ladder costs about 40 s of CPU on the unchanged tree (quadratic
+	// pre-check in clip.Geometry, see large_test.go); everything else takes milliseconds
+	stats.SetLimits(180*time.Second, 3<<30)
+	stats.Main(m, "C08")
+}
 
 func assumptions() {
 	stats.Assume("coordinates are finite; boxes have positive width and height; region clauses are judged for closed vertex lists only (first vertex == last vertex)")
@@ -764,7 +770,7 @@ func concurrentGroup(cs []Case) (cut []bool, f func(i int) error, err error) {
 
 func TestPropConcurrent(t *testing.T) {
 	assumptions()
-	stats.Check(t, 1600, 50000, func(rt *rapid.T) {
+	stats.Check(t, 1200, 50000, func(rt *rapid.T) {
 		n := rapid.IntRange(2, 8).Draw(rt, "goroutines")
 		cs := make([]Case, n)
 		for i := range cs {
@@ -838,6 +844,17 @@ func TestReplay(t *testing.T) {
 	_, raw, ok := stats.Replaying()
 	if !ok {
 		t.Skip("no replay file")
+	}
+	if name, _, _ := stats.Replaying(); name == "TestEnumLarge" {
+		var c LargeCase
+		if err := json.Unmarshal(raw, &c); err != nil {
+			t.Fatal(err)
+		}
+		if err := stats.Guard(func() error { return checkLarge(c) }); err != nil {
+			t.Fatalf("replayed large case still fails: %v", err)
+		}
+		fmt.Println("replayed large case passes")
+		return
 	}
 	if name, _, _ := stats.Replaying(); name == "TestPropConcurrent" {
 		var cs []Case
